@@ -4,6 +4,7 @@ CONSTANTS NObjMax = 2
  NGnd = 0
  HasGround = FALSE
  MaxTag = 3
+ MaxCurves = 0
 INIT Init
 NEXT Next
 
